@@ -67,6 +67,39 @@ impl Det {
     }
 }
 
+impl Det {
+    /// The same program through the entry point a user runs: the text is written as the only file of a fresh
+    /// directory and the category's real `analyze_dir` is asked for this one pattern.  Err = panicked / not listed once.
+    pub fn run_via_dir(&self, src: &str) -> Result<BTreeSet<i32>, String> {
+        use std::sync::atomic::{AtomicUsize, Ordering};
+        static N: AtomicUsize = AtomicUsize::new(0);
+        let base = std::env::var("VERIF_SCRATCH").map(std::path::PathBuf::from).unwrap_or_else(|_| std::env::temp_dir());
+        let dir = base.join(format!("solstat-verif-entry-{}-{}", std::process::id(), N.fetch_add(1, Ordering::SeqCst)));
+        let _ = std::fs::remove_dir_all(&dir);
+        std::fs::create_dir_all(&dir).map_err(|e| e.to_string())?;
+        std::fs::write(dir.join("Only.sol"), src).map_err(|e| e.to_string())?;
+        let d = *self;
+        let path = dir.to_string_lossy().to_string();
+        let res = guarded(move || {
+            let found: Vec<(String, BTreeSet<i32>)> = match d {
+                Det::Opt(o) => optimizations::analyze_dir(&path, vec![o]).into_iter().filter(|(k, _)| *k == o).flat_map(|(_, v)| v).collect(),
+                Det::Vul(o) => vulnerabilities::analyze_dir(&path, vec![o]).into_iter().filter(|(k, _)| *k == o).flat_map(|(_, v)| v).collect(),
+                Det::Qa(o) => qa::analyze_dir(&path, vec![o]).into_iter().filter(|(k, _)| *k == o).flat_map(|(_, v)| v).collect(),
+            };
+            let mut lines = BTreeSet::new();
+            for (_file, ls) in found {
+                lines.extend(ls);
+            }
+            lines
+        });
+        let _ = std::fs::remove_dir_all(&dir);
+        res
+    }
+    pub fn run_entry(&self, src: &str, via_dir: bool) -> Result<BTreeSet<i32>, String> {
+        if via_dir { self.run_via_dir(src) } else { self.run(src) }
+    }
+}
+
 pub fn all() -> Vec<Det> {
     let mut v = vec![];
     for o in optimizations::get_all_optimizations() {
